@@ -172,7 +172,7 @@ PROPS["C05"] = {
     "assumptions": PROPS["C01"]["assumptions"],
 }
 
-_CLUSTER_STREAM = {"name": "cluster", "keys": None, "trivial": r"^(ok|stopped|refresh=\d deletes=- asked=- updates=- fm=\d|asked=\d del=-)$", "hist_keys": ["refresh", "fm"],
+_CLUSTER_STREAM = {"name": "cluster", "keys": None, "trivial": r"^(ok|stopped|start=skipped|refresh=\d deletes=- asked=- updates=- fm=\d|asked=\d del=-)$", "hist_keys": ["refresh", "fm"],
                    "scale": {"quick": 2, "thorough": 30}, "seeds": {"quick": 1, "thorough": 4}}
 _CLUSTER_RULE = ("stream cluster: the real KafkaCluster.getOffsets (hook) against a scripted fake Kafka client and brokers (verifhook.FakeKafka: Topics/Partitions/Leader/"
                  "GetAvailableOffsets answered from the op line, every call recorded, OffsetRequest blocks read by reflection): layouts of 0-4 topics x 0-4 partitions over 3 brokers with "
@@ -186,7 +186,9 @@ _CLUSTER_RULE = ("stream cluster: the real KafkaCluster.getOffsets (hook) agains
                  "Every sixth case runs the refresh cycle against a REAL sarama.Client connected to three of sarama's own mock brokers (TCP on localhost), through Burrow's real shim "
                  "(helpers.BurrowSaramaClient), as in production: metadata answers built by hand (leaderless = leader -1 + LEADER_NOT_AVAILABLE), offset answers with per-partition error codes, "
                  "brokers that come back on a new address under the same id; every cycle starts with a metadata refresh (the real client answers leader lookups from what it read last); "
-                 "asked blocks and full metadata requests are read from the mock brokers' request histories.")
+                 "asked blocks and full metadata requests are read from the mock brokers' request histories. K conf: the module's REAL Configure with each refresh interval set or absent; "
+                 "K start (twice per quick run): the whole module for real — Configure, Start (its own sarama client connects to the mock brokers, one fetch before any ticker), the first tick of its real "
+                 "one-second ticker, Stop — compared cycle by cycle.")
 PROPS["C11"] = {
     "lean_modules": ["BurrowVerif.Props.C11"],
     "props_files": ["BurrowVerif/Props/C11.lean"],
